@@ -21,6 +21,7 @@
 #include "matrix.h"
 #include "preprocessing.h"
 #include "pls.h"
+#include "verifhooks.h"
 #include "pca.h" /*Using: MatrixAutoScaling(); and calcVarExpressed(); */
 #include "numeric.h" /* Using:  if(FLOAT_EQ(NumOne, NumTwo));*/
 #include "metricspace.h"
@@ -209,6 +210,7 @@ void LVCalc(matrix *X,
   #endif
   loop = 0;
   while(1){
+    LIBSCI_VERIF_TICK(1);
     #ifdef DEBUG
     printf("######### Step %u\n", (unsigned int)step);
     step++;
